@@ -31,7 +31,7 @@ CONSTANTS
   Roles,          \* elements of the set field `roles` ("" = a key the storage layer refuses, "LONGR" = an over-long element: refused when the entity is written)
   Grades,         \* values of the child store's unique field `grade`
   BadNames,       \* names the storage layer refuses as index key (over-long) -- subset of Names
-  BossMode,       \* wiring of people.boss -> people : off | idxNull | conNoneNull
+  BossMode,       \* wiring of people.boss -> people : off | idxNull | idxCascade | conNoneNull | conCascadeNull
   TeamMode,       \* wiring of people.team -> teams  : off | idx | idxNull | idxCascade | conNone | conNoneNull | conCascade | conCascadeNull
   ChildExtended,  \* staff declared Extended()
   LinksViaEntity, \* people.teams is also written by Create/Update of a person (SetLinkedIds)
@@ -288,7 +288,8 @@ DeletePersonEffect(d, id) ==
 \* who refuses the delete of person id
 DeletePersonErrs(d, sysctx, id, veto) ==
   LET p == d.ent[id]
-      refs == IF FkKind(BossMode) = "index" THEN d.backBoss[id] \ {id}          \* own back-reference is removed first
+      refs == IF FkCascade(BossMode) THEN {}                                    \* (the referrers are deleted instead: DelTree)
+              ELSE IF FkKind(BossMode) = "index" THEN d.backBoss[id] \ {id}     \* own back-reference is removed first
               ELSE IF FkKind(BossMode) = "constraint" /\ ~FkCascade(BossMode) THEN {e \in Ids : Present(d, e) /\ d.ent[e].boss = id}
               ELSE {}        \* (a cascading constraint deletes the referrers instead: DelTree)
   IN (IF refs # {} THEN {"refExists"} ELSE {})
